@@ -267,6 +267,65 @@ def foreign_link_case(rng, res):
         shutil.rmtree(d, ignore_errors=True)
 
 
+def alias_dump_case(rng, res):
+    """Metadata written through another name of the file (a symbolic link into a shared store, a hard link): in-toto-sign
+    in place, a step run again. Whatever the format, the same thing must happen to the file behind the name."""
+    import tempfile, shutil, contextlib, io, logging
+    import in_toto.runlib as rl
+    from in_toto.models.layout import Layout
+    from in_toto.models.metadata import Metadata, Metablock, Envelope
+    logging.getLogger("in_toto").setLevel(logging.CRITICAL)
+    k = rng.choice(W.pool())
+    kind = rng.choice(["symlink", "symlink", "hardlink"])
+    how = rng.choice(["sign_in_place", "run_again"])
+    outs = {}
+    for dsse in (False, True):
+        d = tempfile.mkdtemp(prefix="verif-c14a-")
+        cwd = os.getcwd()
+        try:
+            os.chdir(d)
+            os.makedirs("store"); os.makedirs("work")
+            if how == "sign_in_place":
+                lay = Layout(expires="2031-01-01T00:00:00Z")
+                (Envelope.from_signable(lay) if dsse else Metablock(signed=lay)).dump("store/root.layout")
+                name = "work/root.layout"
+            else:
+                name = "work/st.%s.link" % k.keyid[:8]
+                open("store/st.link", "w").write("{}")
+            real = "store/root.layout" if how == "sign_in_place" else "store/st.link"
+            if kind == "symlink":
+                os.symlink(os.path.join("..", real), name)
+            else:
+                os.link(real, name)
+            try:
+                with contextlib.redirect_stdout(io.StringIO()), contextlib.redirect_stderr(io.StringIO()):
+                    if how == "sign_in_place":
+                        md = Metadata.load(name)
+                        md.create_signature(k.signer)
+                        md.dump(name)
+                    else:
+                        os.chdir("work")
+                        open("a.txt", "w").write("a\n")
+                        rl.in_toto_run("st", ["a.txt"], ["a.txt"], [], signer=k.signer, use_dsse=dsse)
+                        os.chdir(d)
+                behind = Metadata.load(real)
+                outs[dsse] = {"name_still_an_alias": os.path.islink(name) if kind == "symlink" else os.path.samefile(name, real),
+                              "file_behind_the_name_signed_by": [getattr(s_, "keyid", None) or s_.get("keyid") for s_ in behind.signatures],
+                              "left_over": sorted(f for f in os.listdir("work") if f.endswith(".tmp"))}
+            except Exception as e:  # pylint: disable=broad-except
+                outs[dsse] = {"err": W.exc_class(e)}
+        finally:
+            os.chdir(cwd)
+            shutil.rmtree(d, ignore_errors=True)
+    case = {"op": "alias_dump", "alias": kind, "how": how, "key": k.kind}
+    same = outs[False] == outs[True]
+    res.case(dict(case, outcome=outs[False]), True, same, sample_cap=1)
+    res.count("alias_dump")
+    if not same:
+        res.fail("oracle", case, {"why": "writing metadata through another name of the file has different effects for traditional and DSSE metadata",
+                                  "traditional": outs[False], "dsse": outs[True]})
+
+
 FAMILIES = ["c02", "c05", "c06", "c07", "c08", "c16"]
 
 
@@ -277,6 +336,7 @@ def shard(seed, idx, n, tier):
         one_case(rng, res, FAMILIES[(idx + j) % len(FAMILIES)])
     if idx % 4 == 0:
         one_case(rng, res, "illformed")
+    alias_dump_case(rng, res)
     for _ in range(max(1, n // 4)):
         lib_roundtrip(rng, res)
         foreign_link_case(rng, res)
